@@ -298,6 +298,10 @@ def run(ctx):
                     with vm.mask_params({nm: 0.625}):  # exactly representable (the mask value is cast through float32 by the library)
                         rd = float(vm.read(nm))
                         ctx.check("model: masked read returns the mask value", rd == 0.625, {"name": nm, "read": rd}, mechanism="mask_params read")
+                        if rng.random() < 0.5:
+                            # reading all parameters and writing them back INSIDE the block: the stored value of the masked parameter stays
+                            vm.set_all(vm.get_all_dic())
+                            desc += ["get_all_dic -> set_all inside the block"]
                     desc += [nm]
                 elif op == "temp":
                     names = [str(x) for x in rng.choice(list(vm.variables), size=int(rng.integers(1, 3)), replace=False)]
